@@ -8,8 +8,8 @@ PID = "C02"
 
 def gen_case(rng, i):
     import torch
-    dtype = rng.choice([torch.float64, torch.float64, torch.float64, torch.complex128, torch.float32])
-    cplx = dtype == torch.complex128
+    dtype = rng.choice([torch.float64, torch.float64, torch.float64, torch.complex128, torch.float32, torch.complex64])
+    cplx = dtype in (torch.complex128, torch.complex64)
     is_ttm = rng.random() < 0.25
     d = rng.choice([1, 2, 3, 3, 4, 4, 5, 6, 7])
     fam = rng.choice(["random", "inflated", "scaled", "deficient", "zero", "cancel", "budget"])
@@ -102,7 +102,7 @@ def run(tier, seed, replay=None):
             except Exception as ex:
                 V.fail("round raises %s [%s]" % (type(ex).__name__, fam), dict(desc, exc=str(ex)[:200])); continue
             d = len(cores)
-            f32 = dtype == torch.float32
+            f32 = dtype in (torch.float32, torch.complex64)
             # operand intact
             if ([int(r) for r in x.R] != R0 or any(not torch.equal(a, b) for a, b in zip(x.cores, before)) or [c._version for c in x.cores] != vers
                     or [c.untyped_storage().data_ptr() for c in x.cores] != ptrs or len(x.cores) != d):
@@ -174,7 +174,7 @@ def run(tier, seed, replay=None):
     cov = proofcheck.coverage(PID, obl, evaluations=n, distinct_nontrivial=len(set(json.dumps(m[0], sort_keys=True, default=str) for m in replay_meta)),
         rule=("x.round(eps, rmax) on TT tensors and TT matrices of order 1..7 built from cores: random, inflated (block-diagonal self-sum of an exactly low-rank tensor), "
               "scaled (cores spread over 10^+-6), rank-deficient, zero, cancel (tiny last core, huge first core) and budget (every bond discards a tail just under its allowance, "
-              "non-orthogonal badly scaled gauge) families, eps from 0 to 0.9, scalar and per-bond rmax, float64/complex128/float32; every rank_chop call is recorded and replayed "
+              "non-orthogonal badly scaled gauge) families, eps from 0 to 0.9, scalar and per-bond rmax, float64/complex128/float32/complex64; every rank_chop call is recorded and replayed "
               "in the Coq model in exact integer arithmetic, spectrum lengths are compared with the shape-level model (qr_ranks, svd_lengths), the threshold with eps/sqrt(d-1)*||S||, "
               "the first spectrum norm with ||x||; error, rank and shape bounds and bitwise integrity of the operand are measured; non-trivial = a replayed decision; distinct = distinct case descriptions"),
         samples=samples, distribution=dist, rank_decisions_replayed=len(replay_cases), rank_decisions_agree=n_ok, spectrum_length_traces=len(len_cases),
